@@ -291,3 +291,127 @@ MUTANTS += [
        "                heapq.heappop(self.overwrites)\n"
        "        return (start, end)\n", None),
 ]
+
+# ---- C39.11 (seeded C39-G): records leave the overwrite heap only when write() has consumed them
+_PUBLISH = "        self.current_size = size\n\n        # make the invariant"
+
+
+def _before_publish(code):
+    return code + _PUBLISH
+
+
+MUTANTS += [
+    # the seeded mechanism: truncation prunes the heap keyed on the record's END, so a record straddling the new EOF is dropped whole
+    M("prune-on-truncate-keyed-on-end", F, _PUBLISH, _before_publish(
+        "        if size < self.current_size and len(self.overwrites) > 0:\n"
+        "            self.overwrites = [(start, end) for (start, end) in self.overwrites if end <= size]\n"
+        "            heapq.heapify(self.overwrites)\n"), "C39.11"),
+    # the same effect, written as a pop / re-push loop
+    M("prune-on-truncate-pop-loop", F, _PUBLISH, _before_publish(
+        "        if size < self.current_size:\n"
+        "            kept = []\n"
+        "            while len(self.overwrites) > 0:\n"
+        "                (s, e) = heapq.heappop(self.overwrites)\n"
+        "                if e <= size:\n"
+        "                    kept.append((s, e))\n"
+        "            for rec in kept:\n"
+        "                heapq.heappush(self.overwrites, rec)\n"), "C39.11"),
+    # the prune keeps the right records but clips their start to the truncation point
+    M("prune-on-truncate-rewrites-start", F, _PUBLISH, _before_publish(
+        "        if size < self.current_size:\n"
+        "            self.overwrites = sorted((max(s, self.downloaded + 1), e) for (s, e) in self.overwrites if s < size)\n"), "C39.11"),
+    # 'the download is finished, free the records' - but download_done() is also called while chunks still arrive
+    M("heap-freed-when-download-declared-done", F, "        self.done_status = res\n", "        self.done_status = res\n        self.overwrites = []\n", "C39.11"),
+    M("heap-cleared-through-alias", F, "        self.done_status = res\n",
+      "        self.done_status = res\n        pending = self.overwrites\n        pending.clear()\n", "C39.11"),
+    M("heap-emptied-on-truncate-to-zero", F, _PUBLISH, _before_publish("        if size == 0:\n            del self.overwrites[:]\n"), "C39.11"),
+    M("heap-first-record-dropped-by-reader", F, "        needed = min(offset + length, self.download_size)\n",
+      "        needed = min(offset + length, self.download_size)\n"
+      "        if len(self.overwrites) > 0 and self.overwrites[0][1] <= needed:\n"
+      "            heapq.heappop(self.overwrites)\n", "C39.11"),
+    M("heap-reset-by-file-handle", F, "                self.consumer.set_current_size(size)\n",
+      "                self.consumer.overwrites = []\n                self.consumer.set_current_size(size)\n", "C39.11"),
+    # .. but records that merely overlap it are not: their part outside the new region loses its protection
+    M("overlapping-records-coalesced-on-overwrite", F, "        if end > self.downloaded:\n            heapq.heappush(self.overwrites, (start, end))",
+      "        if end > self.downloaded:\n            self.overwrites = [rec for rec in self.overwrites if rec[1] <= start or rec[0] >= end]\n"
+      "            heapq.heapify(self.overwrites)\n            heapq.heappush(self.overwrites, (start, end))", "C39.11"),
+    M("heap-escapes-to-helper", F, _PUBLISH, _before_publish("        _prune_regions(self.overwrites, size)\n"), "ANALYSIS-ERROR",
+      edits=[(F, "SIZE_THRESHOLD = 1000\n", "SIZE_THRESHOLD = 1000\n\n\ndef _prune_regions(regions, size):\n    regions[:] = [r for r in regions if r[1] <= size]\n")]),
+    # behaviour-preserving: only records that START at/after the new size are dropped (the download is clamped to it)
+    M("benign-prune-on-truncate-keyed-on-start", F, _PUBLISH, _before_publish(
+        "        if size < self.current_size and len(self.overwrites) > 0:\n"
+        "            self.overwrites = [(start, end) for (start, end) in self.overwrites if start < size]\n"
+        "            heapq.heapify(self.overwrites)\n"), None),
+    M("benign-prune-on-truncate-clipping", F, _PUBLISH, _before_publish(
+        "        if size < self.current_size:\n"
+        "            self.overwrites = sorted((s, min(e, size)) for (s, e) in self.overwrites if not (s >= size))\n"), None),
+    M("benign-prune-records-the-download-passed", F, _PUBLISH, _before_publish(
+        "        self.overwrites = [rec for rec in self.overwrites if rec[1] > self.downloaded or rec[0] < size]\n"
+        "        heapq.heapify(self.overwrites)\n"), None),
+    # overwrite() coalesces: records lying inside the region it is about to record are dropped - they stay covered
+    M("benign-covered-records-coalesced-on-overwrite", F, "        if end > self.downloaded:\n            heapq.heappush(self.overwrites, (start, end))",
+      "        if end > self.downloaded:\n            self.overwrites = [rec for rec in self.overwrites if not (start <= rec[0] and rec[1] <= end)]\n"
+      "            heapq.heapify(self.overwrites)\n            heapq.heappush(self.overwrites, (start, end))", None),
+    M("benign-covered-records-coalesced-chained-compare", F, "        if end > self.downloaded:\n            heapq.heappush(self.overwrites, (start, end))",
+      "        if end > self.downloaded:\n            self.overwrites = [(s, e) for (s, e) in self.overwrites if not (start <= s <= e <= end)]\n"
+      "            heapq.heapify(self.overwrites)\n            heapq.heappush(self.overwrites, (start, end))", None),
+    M("benign-heap-resorted", F, _PUBLISH, _before_publish("        self.overwrites = sorted(self.overwrites)\n"), None),
+    M("benign-heap-freed-on-close", F, "            self.is_closed = True\n", "            self.is_closed = True\n            self.overwrites = []\n", None),
+    M("benign-heap-size-logged", F, _PUBLISH, _before_publish(
+        "        if noisy: self.log(\"%d pending %r\" % (len(self.overwrites), (self.overwrites,)), level=NOISY)\n"), None),
+]
+
+# ---- C39.12: in write(), a record is taken off only after it was examined, and is then accounted for
+_REQUEUE_TEST = "            if end >= next_downloaded:\n                # This overwrite extends past"
+MUTANTS += [
+    # a 'nothing to do' fast path that forgets the part of the region inside the chunk
+    M("taken-record-forgotten-by-fast-path", F, _REQUEUE_TEST,
+      "            if end <= next_downloaded and start <= self.downloaded:\n"
+      "                # the region began before this chunk: nothing of it is left to protect\n"
+      "                continue\n" + _REQUEUE_TEST, "C39.12"),
+    M("taken-record-early-return", F, _REQUEUE_TEST,
+      "            if len(data) == 0:\n                return\n" + _REQUEUE_TEST, "C39.12"),
+    # records beyond the chunk are consumed early when the heap is large
+    M("record-beyond-chunk-consumed", F, "            if start >= next_downloaded:\n                # This and all",
+      "            if start >= next_downloaded and len(self.overwrites) < 64:\n                # This and all", "C39.12"),
+    M("merge-pops-record-beyond-merged-end", F, "                if start1 > end:\n                    break\n",
+      "                if start1 > end and end1 > next_downloaded:\n                    break\n", "C39.12"),
+    M("benign-stale-record-explicit", F, _REQUEUE_TEST,
+      "            if end < self.downloaded:\n                continue\n" + _REQUEUE_TEST, None),
+    M("benign-skip-test-negated", F, "            elif end >= self.downloaded:\n", "            elif not (end < self.downloaded):\n", None),
+    M("benign-pop-before-prefix-write", F,
+      "            if start > self.downloaded:\n                # The data we just downloaded has been partially overwritten.\n",
+      "            heapq.heappop(self.overwrites)\n            if start > self.downloaded:\n                # The data we just downloaded has been partially overwritten.\n",
+      None, edits=[(F, "            # to download has already been fully overwritten.\n            heapq.heappop(self.overwrites)\n",
+                    "            # to download has already been fully overwritten.\n")]),
+]
+
+# ---- C39.13: sibling bookkeeping (downloaded / current_size / download_size / milestones)
+MUTANTS += [
+    # "mark everything up to the new size as present, so that waiting readers are released"
+    M("downloaded-fast-forwarded-on-truncate", F, "        if self.downloaded >= self.download_size:\n            self.download_done(b\"size changed\")",
+      "        self._update_downloaded(self.download_size)\n        if self.downloaded >= self.download_size:\n            self.download_done(b\"size changed\")", "C39.13"),
+    # "the client has just written these bytes, the download need not deliver them" - but the stream does not skip them
+    M("downloaded-advanced-by-overwrite", F, "        self.current_size = max(self.current_size, end)\n",
+      "        self.current_size = max(self.current_size, end)\n        if start <= self.downloaded < end:\n            self.downloaded = end\n", "C39.13"),
+    # "in case the file was resized before the download started" - undoes the clamp of an earlier truncation
+    M("download-size-reset-at-producer-registration", F, "        self.producer = p\n", "        self.producer = p\n        self.download_size = self.current_size\n", "C39.13"),
+    M("download-size-follows-extension", F, "            self.overwrite(self.current_size, b\"\\x00\" * (size - self.current_size))\n",
+      "            self.overwrite(self.current_size, b\"\\x00\" * (size - self.current_size))\n            if self.done_status is None:\n                self.download_size = max(self.download_size, self.downloaded)\n", "C39.13"),
+    M("current-size-raised-by-download", F, "        self.f.seek(self.downloaded)\n        self.f.write(data)\n        self._update_downloaded(next_downloaded)",
+      "        self.f.seek(self.downloaded)\n        self.f.write(data)\n        self.current_size = max(self.current_size, next_downloaded)\n        self._update_downloaded(next_downloaded)", "C39.13"),
+    M("skip-beyond-chunk-then-position-moves-back", F, "            if end >= next_downloaded:\n                # This overwrite extends past",
+      "            if end >= next_downloaded and end < self.download_size:\n                # This overwrite extends past", "C39.13"),
+    M("waiters-dropped-on-close", F, "        self.download_done(b\"closed\")\n", "        self.milestones = []\n        self.download_done(b\"closed\")\n", "C39.13"),
+    M("benign-milestones-rechecked-after-truncate", F, "        if self.downloaded >= self.download_size:\n            self.download_done(b\"size changed\")",
+      "        self._update_downloaded(self.downloaded)\n        if self.downloaded >= self.download_size:\n            self.download_done(b\"size changed\")", None),
+    # pulling the position back to the truncation point is harmless: download_size is clamped to it as well, write() ignores the rest
+    M("benign-downloaded-clamped-on-truncate", F, _PUBLISH, _before_publish("        self.downloaded = min(self.downloaded, size)\n"), None),
+    M("benign-downloaded-clamped-through-update", F, "        if self.downloaded >= self.download_size:\n            self.download_done(b\"size changed\")",
+      "        self._update_downloaded(min(size, self.downloaded))\n        if self.downloaded >= self.download_size:\n            self.download_done(b\"size changed\")", None),
+    # a write that reaches the end of what is still to be downloaded: everything from its start on is client data, the download
+    # may stop there (download_size only ever goes down)
+    M("benign-download-stops-at-tail-overwrite", F, "        self.current_size = max(self.current_size, end)\n",
+      "        self.current_size = max(self.current_size, end)\n        if end >= self.download_size:\n            self.download_size = min(self.download_size, start)\n", None),
+    M("benign-current-size-max-mirrored", F, "        self.current_size = max(self.current_size, end)\n", "        self.current_size = max(end, self.current_size)\n", None),
+]
